@@ -10,6 +10,7 @@ import (
 	"fmt"
 	"os"
 	"path/filepath"
+	"regexp"
 	"runtime"
 	"sort"
 	"strconv"
@@ -407,6 +408,29 @@ func exploreMain(t *testing.T, h Harness) {
 	emitFp := os.Getenv("VERIF_EMIT_FP") == "1"
 	replayDir := os.Getenv("VERIF_REPLAY_DIR")
 	prop := os.Getenv("VERIF_PROP")
+	// known findings (from known_findings.json via ./check): counted, not minimised, no replay file
+	type knownT struct {
+		Property, Oracle, Match string
+		re                      *regexp.Regexp
+	}
+	var known []knownT
+	if kj := os.Getenv("VERIF_KNOWN"); kj != "" {
+		if err := json.Unmarshal([]byte(kj), &known); err != nil {
+			fmt.Fprintln(os.Stderr, "kernel: VERIF_KNOWN:", err)
+			os.Exit(2)
+		}
+		for i := range known {
+			known[i].re = regexp.MustCompile(known[i].Match)
+		}
+	}
+	isKnown := func(v Violation) bool {
+		for _, k := range known {
+			if k.Property == v.Prop && k.Oracle == v.Oracle && k.re.MatchString(v.Sig+" || "+v.Detail) {
+				return true
+			}
+		}
+		return false
+	}
 
 	sum := Summary{Harness: h.Name, Worker: worker, Faults: map[string]int{}, Probes: map[string]int{}}
 	if emitFp {
@@ -478,6 +502,9 @@ func exploreMain(t *testing.T, h Harness) {
 			byKey[key] = rec
 			if prop != "" && v.Prop != prop && v.Prop != "*" {
 				continue // belongs to another property served by this harness; counted, not minimised here
+			}
+			if isKnown(v) {
+				continue // reported by ./check as KNOWN-FINDING
 			}
 			mt, _ := Minimise(t, h, seed, r.Tape, v, envInt("VERIF_MIN_REPLAYS", 400), 90*time.Second)
 			fr := RunOnce(t, h, seed, mt, true)
